@@ -37,6 +37,11 @@ class InjectedFault(OSError):
     pass
 
 
+class FuelExhausted(BaseException):
+    """Raised by the file layer when a read budget is exceeded (BaseException: must not be swallowed by
+    the `except Exception` recovery handlers of the code under test)."""
+
+
 class VFS:
     def __init__(self, pure=False):
         self.pure = pure
@@ -55,9 +60,14 @@ class VFS:
         self.fds = {}
         self.nextfd = 100
         self.recording = True
+        self.read_fuel = None      # optional bound on the number of read operations (termination checks)
 
     # -- bookkeeping -------------------------------------------------------
     def _yield(self, kind, path):
+        if kind == 'read' and self.read_fuel is not None:
+            self.read_fuel -= 1
+            if self.read_fuel < 0:
+                raise FuelExhausted('more than the allowed number of read operations')
         if self.hook is not None:
             self.hook(kind, path)
 
